@@ -294,6 +294,10 @@ struct SymRunner : public CommandRunner {
     ExitStatus st = ExitSuccess; std::string output;
     if (r.phantom || (g_dead && verif_bool("command_killed_with_ninja"))) {
       // started by a ninja that was already dead (no effect), or killed together with it before replacing its outputs
+#ifdef PARTIAL_WRITES
+      // ... or after it had begun to write them: the files are there, newer than every input, and hold garbage (nothing of this was recorded)
+      if (!r.phantom && verif_bool("killed_command_left_partial_output")) { for (size_t k = 0; k < e->outputs_.size(); k++) g_tree->write(e->outputs_[k]->path(), -21 - (long)k); events.push_back("partial " + e->outputs_[0]->path()); }
+#endif
       return BuildResult::CommandCompleted(e, st, "");
     }
     if (fail) {
@@ -518,5 +522,5 @@ struct MinRef {
   }
 };
 static bool same_set(std::vector<int> a, std::vector<int> b) { if (a.size() != b.size()) return false; for (size_t i = 0; i < a.size(); i++) { bool f = false; for (size_t k = 0; k < b.size(); k++) f = f || a[i] == b[k]; if (!f) return false; } return true; }
-static void edit_file(const std::string& name) { VFile* f = g_tree->get(name); f->exists = true; f->is_text = false; f->content += 1; f->mtime = g_tree->tick(); }
+static void edit_file(const std::string& name, int amount = 1) { VFile* f = g_tree->get(name); f->exists = true; f->is_text = false; f->content += amount; f->mtime = g_tree->tick(); }
 #endif
